@@ -81,8 +81,8 @@ package ast
 //@   : (typeis(x, "*Star") ? unbox(x, "*Star").gF : (typeis(x, "*Char") ? setadd(emptyset(Pos), unbox(x, "*Char").Pos) : emptyset(Pos))))
 //@ spec func nodeL(x Node) set[Pos] = typeis(x, "*Concat") ? unbox(x, "*Concat").gL : (typeis(x, "*Alt") ? unbox(x, "*Alt").gL
 //@   : (typeis(x, "*Star") ? unbox(x, "*Star").gL : (typeis(x, "*Char") ? setadd(emptyset(Pos), unbox(x, "*Char").Pos) : emptyset(Pos))))
-// has(s, p): p occurs in the list s
-//@ spec func has(s Poses, p Pos) bool = elem(s, p)
+// hasPos(s, p): p occurs in the list s
+//@ spec func hasPos(s Poses, p Pos) bool = elem(s, p)
 //@ spec func concatDef(c *Concat) bool = c.ht >= 1
 //@   && (forall k int :: {c.Exprs[k]} 0 <= k && k < len(c.Exprs) ==> isNode(c.Exprs[k]) && 0 <= nodeHt(c.Exprs[k]) && nodeHt(c.Exprs[k]) < c.ht)
 //@   && c.gN == (forall k int :: {c.Exprs[k]} 0 <= k && k < len(c.Exprs) ==> nodeN(c.Exprs[k]))
@@ -97,7 +97,7 @@ package ast
 //@   && (forall s *Star :: {s.Expr} {s.ht} s != nil ==> isNode(s.Expr) && 0 <= nodeHt(s.Expr) && nodeHt(s.Expr) < s.ht && s.gF == nodeF(s.Expr) && s.gL == nodeL(s.Expr))
 // a memoised value, where present, is the defined one (for every node up to height h)
 //@ spec func compIs(m *computed, n bool, f set[Pos], l set[Pos]) bool = m.nullable == n
-//@   && (forall p Pos :: {has(m.firstPos, p)} {p in f} has(m.firstPos, p) == (p in f)) && (forall p Pos :: {has(m.lastPos, p)} {p in l} has(m.lastPos, p) == (p in l))
+//@   && (forall p Pos :: {hasPos(m.firstPos, p)} {p in f} hasPos(m.firstPos, p) == (p in f)) && (forall p Pos :: {hasPos(m.lastPos, p)} {p in l} hasPos(m.lastPos, p) == (p in l))
 //@ spec func cacheOK(h int) bool = (forall c *Concat :: {c.comp} c != nil && c.ht <= h && c.comp != nil ==> allocated(c.comp) && compIs(c.comp, c.gN, c.gF, c.gL))
 //@   && (forall a *Alt :: {a.comp} a != nil && a.ht <= h && a.comp != nil ==> allocated(a.comp) && compIs(a.comp, a.gN, a.gF, a.gL))
 // nothing above height h is touched
@@ -133,7 +133,7 @@ package ast
 //@   requires cacheOK(nodeHt(n))
 //@   requires memosAlloc()
 //@   modifies all(Concat.comp), all(Alt.comp)
-//@   ensures (forall p Pos :: {has(result, p)} {p in unbox(n, "*Concat").gF} {p in unbox(n, "*Alt").gF} {p in unbox(n, "*Star").gF} has(result, p) == (p in nodeF(n)))
+//@   ensures (forall p Pos :: {hasPos(result, p)} {p in unbox(n, "*Concat").gF} {p in unbox(n, "*Alt").gF} {p in unbox(n, "*Star").gF} hasPos(result, p) == (p in nodeF(n)))
 //@   ensures cacheOK(nodeHt(n))
 //@   ensures aboveKept(nodeHt(n))
 //@   ensures compsNew()
@@ -145,7 +145,7 @@ package ast
 //@   requires cacheOK(nodeHt(n))
 //@   requires memosAlloc()
 //@   modifies all(Concat.comp), all(Alt.comp)
-//@   ensures (forall p Pos :: {has(result, p)} {p in unbox(n, "*Concat").gL} {p in unbox(n, "*Alt").gL} {p in unbox(n, "*Star").gL} has(result, p) == (p in nodeL(n)))
+//@   ensures (forall p Pos :: {hasPos(result, p)} {p in unbox(n, "*Concat").gL} {p in unbox(n, "*Alt").gL} {p in unbox(n, "*Star").gL} hasPos(result, p) == (p in nodeL(n)))
 //@   ensures cacheOK(nodeHt(n))
 //@   ensures aboveKept(nodeHt(n))
 //@   ensures compsNew()
@@ -177,7 +177,7 @@ package ast
 //@   loop[1] invariant n.comp.nullable == n.gN
 //@   loop[1] invariant len(n.comp.lastPos) == 0
 //@   loop[1] invariant forall k int :: {n.Exprs[k]} 0 <= k && k < __i1 ==> nodeN(n.Exprs[k])
-//@   loop[1] invariant forall p Pos :: {has(n.comp.firstPos, p)} has(n.comp.firstPos, p) == (exists k int :: 0 <= k && k < __i1 && (p in nodeF(n.Exprs[k])))
+//@   loop[1] invariant forall p Pos :: {hasPos(n.comp.firstPos, p)} hasPos(n.comp.firstPos, p) == (exists k int :: 0 <= k && k < __i1 && (p in nodeF(n.Exprs[k])))
 //@   loop[2] invariant n.comp != nil
 //@   loop[2] invariant fresh(n.comp)
 //@   loop[2] invariant cacheOK(n.ht - 1)
@@ -188,13 +188,13 @@ package ast
 //@   loop[2] invariant n.comp.nullable == n.gN
 //@   loop[2] invariant -1 <= i
 //@   loop[2] invariant i < len(n.Exprs)
-//@   loop[2] invariant forall p Pos :: {has(n.comp.firstPos, p)} {p in n.gF} has(n.comp.firstPos, p) == (p in n.gF)
+//@   loop[2] invariant forall p Pos :: {hasPos(n.comp.firstPos, p)} {p in n.gF} hasPos(n.comp.firstPos, p) == (p in n.gF)
 //@   loop[2] invariant forall k int :: {n.Exprs[k]} i < k && k < len(n.Exprs) ==> nodeN(n.Exprs[k])
-//@   loop[2] invariant forall p Pos :: {has(n.comp.lastPos, p)} has(n.comp.lastPos, p) == (exists k int :: i < k && k < len(n.Exprs) && (p in nodeL(n.Exprs[k])))
+//@   loop[2] invariant forall p Pos :: {hasPos(n.comp.lastPos, p)} hasPos(n.comp.lastPos, p) == (exists k int :: i < k && k < len(n.Exprs) && (p in nodeL(n.Exprs[k])))
 //@   ensures n.comp != nil
 //@   ensures @own-nullable n.comp.nullable == n.gN
-//@   ensures @own-firstpos forall p Pos :: {has(n.comp.firstPos, p)} {p in n.gF} has(n.comp.firstPos, p) == (p in n.gF)
-//@   ensures @own-lastpos forall p Pos :: {has(n.comp.lastPos, p)} {p in n.gL} has(n.comp.lastPos, p) == (p in n.gL)
+//@   ensures @own-firstpos forall p Pos :: {hasPos(n.comp.firstPos, p)} {p in n.gF} hasPos(n.comp.firstPos, p) == (p in n.gF)
+//@   ensures @own-lastpos forall p Pos :: {hasPos(n.comp.lastPos, p)} {p in n.gL} hasPos(n.comp.lastPos, p) == (p in n.gL)
 //@   ensures @cache cacheOK(n.ht)
 //@   ensures @above aboveKept(n.ht)
 //@   ensures @memo-fresh compsNew()
@@ -216,7 +216,7 @@ package ast
 //@   requires cacheOK(n.ht)
 //@   requires memosAlloc()
 //@   modifies all(Concat.comp), all(Alt.comp)
-//@   ensures @textbook (forall p Pos :: {has(result, p)} {p in n.gF} has(result, p) == (p in n.gF))
+//@   ensures @textbook (forall p Pos :: {hasPos(result, p)} {p in n.gF} hasPos(result, p) == (p in n.gF))
 //@   ensures @cache cacheOK(n.ht)
 //@   ensures @above aboveKept(n.ht)
 //@   ensures @memo-fresh compsNew()
@@ -227,7 +227,7 @@ package ast
 //@   requires cacheOK(n.ht)
 //@   requires memosAlloc()
 //@   modifies all(Concat.comp), all(Alt.comp)
-//@   ensures @textbook (forall p Pos :: {has(result, p)} {p in n.gL} has(result, p) == (p in n.gL))
+//@   ensures @textbook (forall p Pos :: {hasPos(result, p)} {p in n.gL} hasPos(result, p) == (p in n.gL))
 //@   ensures @cache cacheOK(n.ht)
 //@   ensures @above aboveKept(n.ht)
 //@   ensures @memo-fresh compsNew()
@@ -247,8 +247,8 @@ package ast
 //@   loop[0] invariant compsNew()
 //@   loop[0] invariant memosAlloc()
 //@   loop[0] invariant n.comp.nullable == (exists k int :: 0 <= k && k < __i0 && nodeN(n.Exprs[k]))
-//@   loop[0] invariant forall p Pos :: {has(n.comp.firstPos, p)} has(n.comp.firstPos, p) == (exists k int :: 0 <= k && k < __i0 && (p in nodeF(n.Exprs[k])))
-//@   loop[0] invariant forall p Pos :: {has(n.comp.lastPos, p)} has(n.comp.lastPos, p) == (exists k int :: 0 <= k && k < __i0 && (p in nodeL(n.Exprs[k])))
+//@   loop[0] invariant forall p Pos :: {hasPos(n.comp.firstPos, p)} hasPos(n.comp.firstPos, p) == (exists k int :: 0 <= k && k < __i0 && (p in nodeF(n.Exprs[k])))
+//@   loop[0] invariant forall p Pos :: {hasPos(n.comp.lastPos, p)} hasPos(n.comp.lastPos, p) == (exists k int :: 0 <= k && k < __i0 && (p in nodeL(n.Exprs[k])))
 //@   ensures n.comp != nil
 //@   ensures @cache cacheOK(n.ht)
 //@   ensures @above aboveKept(n.ht)
@@ -271,7 +271,7 @@ package ast
 //@   requires cacheOK(n.ht)
 //@   requires memosAlloc()
 //@   modifies all(Concat.comp), all(Alt.comp)
-//@   ensures @textbook (forall p Pos :: {has(result, p)} {p in n.gF} has(result, p) == (p in n.gF))
+//@   ensures @textbook (forall p Pos :: {hasPos(result, p)} {p in n.gF} hasPos(result, p) == (p in n.gF))
 //@   ensures @cache cacheOK(n.ht)
 //@   ensures @above aboveKept(n.ht)
 //@   ensures @memo-fresh compsNew()
@@ -282,7 +282,7 @@ package ast
 //@   requires cacheOK(n.ht)
 //@   requires memosAlloc()
 //@   modifies all(Concat.comp), all(Alt.comp)
-//@   ensures @textbook (forall p Pos :: {has(result, p)} {p in n.gL} has(result, p) == (p in n.gL))
+//@   ensures @textbook (forall p Pos :: {hasPos(result, p)} {p in n.gL} hasPos(result, p) == (p in n.gL))
 //@   ensures @cache cacheOK(n.ht)
 //@   ensures @above aboveKept(n.ht)
 //@   ensures @memo-fresh compsNew()
@@ -296,7 +296,7 @@ package ast
 //@   requires cacheOK(n.ht)
 //@   requires memosAlloc()
 //@   modifies all(Concat.comp), all(Alt.comp)
-//@   ensures @textbook (forall p Pos :: {has(result, p)} {p in n.gF} has(result, p) == (p in n.gF))
+//@   ensures @textbook (forall p Pos :: {hasPos(result, p)} {p in n.gF} hasPos(result, p) == (p in n.gF))
 //@   ensures @cache cacheOK(n.ht)
 //@   ensures @above aboveKept(n.ht)
 //@   ensures @memo-fresh compsNew()
@@ -307,7 +307,7 @@ package ast
 //@   requires cacheOK(n.ht)
 //@   requires memosAlloc()
 //@   modifies all(Concat.comp), all(Alt.comp)
-//@   ensures @textbook (forall p Pos :: {has(result, p)} {p in n.gL} has(result, p) == (p in n.gL))
+//@   ensures @textbook (forall p Pos :: {hasPos(result, p)} {p in n.gL} hasPos(result, p) == (p in n.gL))
 //@   ensures @cache cacheOK(n.ht)
 //@   ensures @above aboveKept(n.ht)
 //@   ensures @memo-fresh compsNew()
